@@ -351,13 +351,14 @@ impl<D: Device, P: Protocol, S: Socket, TS: TimeSource> GenericCloud<D, P, S, TS
     fn crypto_housekeep(&mut self) -> Result<(), Error> {
         let mut msg = MsgBuffer::new(SPACE_BEFORE);
         let mut del: SmallVec<[SocketAddr; 4]> = smallvec![];
+        let mut del_pending: SmallVec<[SocketAddr; 4]> = smallvec![];
         // A failed send must not skip the removal of timed out entries below: their handshake state is
         // already gone, so they would never report an error again and block their address forever.
         let mut result = Ok(());
         for addr in self.pending_inits.keys().copied().collect::<SmallVec<[SocketAddr; 4]>>() {
             msg.clear();
             match self.pending_inits.get_mut(&addr).unwrap().every_second(&mut msg) {
-                Err(_) => del.push(addr),
+                Err(_) => del_pending.push(addr),
                 Ok(MessageResult::None) => (),
                 Ok(MessageResult::Reply) => {
                     if let Err(e) = self.send_to(addr, &mut msg) {
@@ -379,6 +380,11 @@ impl<D: Device, P: Protocol, S: Socket, TS: TimeSource> GenericCloud<D, P, S, TS
                 }
                 Ok(_) => unreachable!(),
             }
+        }
+        // A handshake that timed out is forgotten; an established peer on the same address is not affected
+        // (if it really is gone it will time out on its own).
+        for addr in del_pending {
+            self.pending_inits.remove(&addr);
         }
         for addr in del {
             self.pending_inits.remove(&addr);
@@ -884,9 +890,14 @@ impl<D: Device, P: Protocol, S: Socket, TS: TimeSource> GenericCloud<D, P, S, TS
         // HOT PATH
         let src = mapped_addr(src);
         debug!("Received {} bytes from {}", data.len(), src);
-        let msg_result = if let Some(init) = self.pending_inits.get_mut(&src) {
+        // A pending handshake only takes handshake messages away from an established peer on the same address.
+        // Anybody can make us start a handshake as responder by replaying a captured first message; the
+        // established connection must keep working while that handshake is going nowhere.
+        let to_pending = self.pending_inits.contains_key(&src)
+            && (is_init_message(data.message()) || !self.peers.contains_key(&src));
+        let msg_result = if to_pending {
             // COLD PATH
-            init.handle_message(data)
+            self.pending_inits.get_mut(&src).unwrap().handle_message(data)
         } else if is_init_message(data.message()) {
             // COLD PATH
             let mut result = None;
